@@ -43,7 +43,7 @@ CHECKS = {
             "bounded model checking (Kani->CBMC) with an instrumented counting source over arbitrary small tables"),
     "C13": ("model_checking", "ranking function per automaton: for ALL real states the fail link leads to a strictly shallower real state (or the dead state in leftmost kinds) and output parent links strictly decrease (T34/T34lm); the transition loops are unrolled to maxdepth+2 with unwinding assertions for ALL (state,label) (T5) => termination; depth +1 per goto and <= -1 per fail step gives the 2n bound (argued, DESIGN section 3); iterator steps terminate for all 4-slot tables",
             "bounded model checking (Kani->CBMC): rank obligations for all states + unwinding assertions as termination certificates"),
-    "C15": ("translation_validation", "per built automaton CBMC decides for ALL (state,label) that the slots reachable through the real child() are in bijection with the by-definition prefix set (shadow-aware for leftmost-first) (T1), and evaluates num_states()/num_elements()/heap_bytes() on those tables (T6), including a 241-state one-block automaton with zero-sized, 1-byte and 16-byte value types (the 12-bytes-per-state bound is tight there)",
+    "C15": ("translation_validation", "per built automaton CBMC decides for ALL (state,label) that the slots reachable through the real child() are in bijection with the by-definition prefix set (shadow-aware for leftmost-first) (T1), and evaluates num_states()/num_elements()/heap_bytes() on those tables (T6), including a densely filled 1201-state automaton with zero-sized, 1-byte and 16-byte value types (the 12-bytes-per-state bound is tight there)",
             "bounded model checking (Kani->CBMC) of the real child() over all (state,label) of each built table vs a by-definition node set"),
 }
 
